@@ -67,6 +67,27 @@ CLAIMS["C14"] = (
     "equality and masking arithmetic are not decided.",
 )
 
+CLAIMS["C03"] = (
+    "4/C03",
+    "sibling agreement over guarded effect sets; guarded-site; must-pass-through; never-reach on the dispatcher CFGs",
+    "Decides on every path: the duplicated senders / send-body arms perform identical guarded effects; KEEP_ALIVE can be "
+    "set only under payload.is_none(); FINISHED->SHUTDOWN requires !KEEP_ALIVE and payload.is_none(); the unread-payload "
+    "predicate has the required boolean structure and forces ConnectionType::Close together with DRAINING; every queued "
+    "error response comes with READ_DISCONNECT and leaves the decode loop; READ_DISCONNECT blocks reading and decoding; "
+    "LINGER never decodes and discards what it reads. The clause `no dispatch after a response that announced close` "
+    "is violated today at two dispatch sites (confirmed with a pipelined input) and is carried as a known finding by "
+    "exact key; any other violation of the same rule still fails. Timing races between timers are not decided.",
+)
+CLAIMS["C05"] = (
+    "4/C05",
+    "guarded-site analysis: every growth site of a per-connection buffer/queue is crossed by its limit comparison on every path, re-evaluated per loop iteration",
+    "Finds all growth sites by query (socket reads into read_buf, need-more of the head parser, enqueues of pipelined "
+    "messages, feeds of the body channel, chunk appends to write_buf) and shows each is reachable only across the "
+    "comparison with its limit constant / configured size, that the comparison is re-evaluated on every loop iteration, "
+    "and that the over-limit edge yields TooLarge -> 431 + READ_DISCONNECT. Bounds are 'limit + one read buffer / one "
+    "chunk' as the property allows. Numeric high-water marks are not decided.",
+)
+
 NOT_YET = "check not built yet in this round (planned per DESIGN.md section 4); not claimed until it exists"
 
 NOT_APPLICABLE = {}
